@@ -2,14 +2,14 @@
 (* Trace validation for daemon locations (monitor): which address the handed-out uri names, whether it parses back to exactly that
    host and port, and whether a client can reach the object through the inside uri. *)
 EXTENDS Naturals, Sequences, TLC, Json, IOUtils
-VARIABLES h, n, asknat
+VARIABLES h, n, nh, asknat
 L == INSTANCE Location
 Traces == JsonDeserialize(IOEnv.TRACE_FILE)
 NT == Len(Traces)
 VARIABLES t, l, bad
-vars == <<t, l, bad, h, n, asknat>>
+vars == <<t, l, bad, h, n, nh, asknat>>
 X == Traces[t]
-Init == t \in 1..NT /\ l = 1 /\ bad = "" /\ h = "ipv4" /\ n = "none" /\ asknat = TRUE
+Init == t \in 1..NT /\ l = 1 /\ bad = "" /\ h = "ipv4" /\ n = "none" /\ nh = "name" /\ asknat = TRUE
 Check(x) ==
     LET exp == L!Names(x.h, x.n, x.asknat) IN
     IF x.names # exp THEN (IF x.names = "other_exception" THEN "Location.DaemonCannotBeCreated"
@@ -20,7 +20,7 @@ Check(x) ==
     ELSE IF ~x.register_agrees THEN "Location.RegisterAndUriForDisagree"
     ELSE IF ~x.reachable THEN "Location.InsideUriNotReachable"
     ELSE ""
-Step == l = 1 /\ l' = 2 /\ t' = t /\ bad' = Check(X) /\ UNCHANGED <<h, n, asknat>>
+Step == l = 1 /\ l' = 2 /\ t' = t /\ bad' = Check(X) /\ UNCHANGED <<h, n, nh, asknat>>
 Spec == Init /\ [][Step]_vars
 Verdict == (l = 2) => PrintT(<<"VERDICT", t, bad>>)
 =============================================================================
